@@ -151,7 +151,10 @@ def _seq_job(job):
     r = random.Random('c14s/%d/%d' % (seed, k))
     g = G.Gen(r, G.Profile(matlab_safe=True, max_decls=6, p_template=0.15))
     m = g.module()
-    text = G.text(G.tokens(m)) + ' namespace c14 { class Mine { Mine(); }; } '     # shares the package +c14 with other.i
+    # shares the package +c14 with other.i; Keeper takes arguments of a class that an EARLIER wrapper of the sequence ignores
+    text = G.text(G.tokens(m)) + (' namespace c14 { class Mine { Mine(); }; class Secret { Secret(); }; class Keeper { '
+                                  'Keeper(const c14::Secret& s); void take(const c14::Secret& s, int n) const; '
+                                  'static double weigh(const c14::Secret& s); }; } ')
     names = classes_of(m)
     d = scratch()
     try:
@@ -171,6 +174,10 @@ def _seq_job(job):
             # wrapped one after the other without ignore lists
             earlier = [dict(earlier[0], ign=''), {'src': other, 'top': '', 'boost': earlier[0]['boost'], 'ign': ''}] + earlier[1:]
         last = {'src': src, 'top': '', 'boost': r.choice(['0', '1']), 'ign': ','.join(r.choice([[], [], ign[:1]]))}
+        if k % 4 == 1:
+            # an earlier wrapper ignores a class whose objects the last wrapper's classes take as arguments
+            earlier[0]['ign'] = ','.join(ign + ['c14::Secret'])
+            last['ign'] = ''
         runs = earlier + [last]
         shared = (k % 2 == 0)      # every second sequence writes all its runs into ONE output directory (stale files of
         for i, x in enumerate(runs):  # earlier runs, written under other options, are in the way)
